@@ -663,6 +663,14 @@ class PyFlow:
             n = a[2][0].const_value()
             if n is not None and 0 <= n <= self.unroll:
                 return [C(i) for i in range(n)]
+        if a[0] == "call" and a[1] == "reversed" and len(a[2]) == 1:
+            inner = self._rows(a[2][0])
+            return list(reversed(inner)) if inner is not None else None
+        if a[0] == "call" and a[1] in ("list", "tuple", "iter") and len(a[2]) == 1:
+            return self._rows(a[2][0])
+        if a[0] == "call" and a[1] == "enumerate" and len(a[2]) == 1:
+            inner = self._rows(a[2][0])
+            return [Poly.atom(("tuple", (C(i), x))) for i, x in enumerate(inner)] if inner is not None else None
         return None
 
     def _bind_loop_target(self, t: ast.AST, v: Poly, q: Path) -> None:
@@ -1230,6 +1238,9 @@ class PyFlow:
             return out
         if isinstance(e, ast.Lambda):
             return [(p, opaque("lambda:" + src_of(e)))]
+        if isinstance(e, ast.Starred):
+            # *args at a call site: the value that is spread (rebinding of the name is seen)
+            return [(q, call("__star__", v)) for q, v in self.ev(e.value, p, depth, no_effect=no_effect)]
         return [(p, opaque(src_of(e)))]
 
     # ----------------------------------------------------------------- calls
